@@ -9,7 +9,8 @@ From Coq Require Import ZArith NArith List Bool Lia.
 From CL Require Import Base.Sx Base.Res Base.Str Regex.Rx Model.AddRemove Model.LineCol Model.Lint
                        Model.LintProps Proofs.LintProofs Proofs.LintExample Generated.C19Facts
                        Proofs.C02Blocks Proofs.C02BlocksJunkRx Proofs.C02BlocksJunk
-                       Proofs.LintPropsE2E.
+                       Proofs.PropsValTotal Proofs.LintE2E Proofs.LintPropsE2E
+                       Proofs.C02BlocksIni Proofs.C02BlocksIniJunk Proofs.LintIniE2E.
 Import ListNotations.
 Open Scope Z_scope.
 
@@ -207,72 +208,76 @@ Proof.
   apply ctx_linecol_spec. split; [apply Z.add_nonneg_nonneg; assumption|exact H2].
 Qed.
 
-(* ---- end to end for .properties: text x text -> result list ------------------------------
-   The linted file is the text of a block list of Proofs/C02BlocksJunk.v (entities with
-   attached comments and continuation lines, standalone comments, whitespace, GARBAGE
-   regions; keys may repeat), the reference the text of a legal block list of
-   Proofs/C02Blocks.v.  [lint_properties] (Model/LintProps.v) parses both TEXTS with the
-   parser model, builds the entity objects (key, raw value, position methods over the C17
-   line index), compares with Entry.equals over the unescaped values and runs the linter;
-   no parse is supplied from outside.  Its result is [expected] (Proofs/LintPropsE2E.v),
-   computed from the blocks alone, in file order:
+(* ---- end to end: text x text -> result list ------------------------------------------------
+   The linted file is the text of a block list with GARBAGE regions (Proofs/C02BlocksJunk.v for
+   .properties: entities with attached comments and continuation lines, standalone comments,
+   white-space, garbage; keys may repeat), the reference the text of another such list (or
+   absent).  [lint_properties] (Model/LintProps.v, an instance of Model/LintText.v) parses
+   both TEXTS with the parser model, builds the entity objects (key, raw value, position
+   methods over the C17 line index), compares with Entry.equals over the unescaped values and
+   runs the linter; no parse is supplied from outside.  Its result is [pexpected] = [expected]
+   of Proofs/LintE2E.v on the blocks seen as items, computed from the blocks alone, in file
+   order:
    - a garbage region: one "unparsed content" error from [lc pre] to [lc (pre ++ region)],
      where [pre] is the text before it and [lc pre] = (1 + newlines in pre, 1 + characters
      since the last newline of pre);
-   - an entity block: a "duplicate" error at the start of its key if [key_occurrences], the number
-     of entity blocks with the key, exceeds 1 -- that is at EVERY occurrence of a repeated key,
-     the first one too, as the implementation does -- and a "changed" warning at the same
-     place if the last entity block of the reference with the key ([ref_value]) has a value
-     that unescapes differently;
+   - an entity block: a "duplicate" error at the start of the entity (for .properties its
+     key; after its attached comment) if [key_occurrences], the number of entity blocks with
+     the key, exceeds 1 -- that is at EVERY occurrence of a repeated key, the first one too,
+     as the implementation does -- and a "changed" warning at the same place if the last
+     entity block of the reference with the key ([ref_value]) has a value that unescapes
+     differently;
    - nothing else.
-   Premises beyond legality of the blocks ([block_key_ok]): no key starts with "_junk_" (a
-   key spelt like a junk key would count as a repetition of that Junk object's key), and
-   the values unescape (a value on which the unescape raises makes equals raise).
+   Premise beyond legality of the blocks ([block_key_ok]): no key of the linted file starts
+   with "_junk_" (a key spelt like a junk key would count as a repetition of that Junk
+   object's key).  That values unescape is no premise: [C19_props_val_total].
    Blocks with the same key are covered: the block theorems assume nothing about keys.
    The checker is a parameter: silent in the first theorem; arbitrary in the second, which
-   says that whatever the checks add, the other findings are exactly [expected]. *)
+   says that whatever the checks add, the other findings are exactly the expected ones. *)
+
+(* PropertiesEntity.val never raises: the unescape returns on every string *)
+Theorem C19_props_val_total : forall raw, exists v, Unescape.props_val raw = Ok v.
+Proof. exact props_val_total. Qed.
+
 Theorem C19_end_to_end_properties :
   forall (Msg : Type) (chk : option (@checker str Msg)) (all : list jblock)
-         (rref : option (list block)) (j0 : nat),
+         (rref : option (list jblock)) (j0 : nat),
   Forall legal_jblock all -> jadjacent_ok all -> Forall block_key_ok all ->
   match rref with
-  | Some rbs => Forall legal_block rbs /\ adjacent_ok rbs /\
-                Forall (fun b => block_key_ok (JB b)) rbs
+  | Some rbs => Forall legal_jblock rbs /\ jadjacent_ok rbs
   | None => True
   end ->
   (forall e, match chk with Some c => c e e | None => [] end = []) ->
-  lint_properties j0 chk (jfile_text all) (option_map file_text rref) =
-  Ok (expected all rref [] all).
+  lint_properties j0 chk (jfile_text all) (option_map jfile_text rref) =
+  Ok (pexpected all rref).
 Proof. intros Msg chk all rref j0. exact (e2e_properties_silent chk all rref j0). Qed.
 
 Theorem C19_end_to_end_properties_checks :
   forall (Msg : Type) (chk : option (@checker str Msg)) (all : list jblock)
-         (rref : option (list block)) (j0 : nat),
+         (rref : option (list jblock)) (j0 : nat),
   Forall legal_jblock all -> jadjacent_ok all -> Forall block_key_ok all ->
   match rref with
-  | Some rbs => Forall legal_block rbs /\ adjacent_ok rbs /\
-                Forall (fun b => block_key_ok (JB b)) rbs
+  | Some rbs => Forall legal_jblock rbs /\ jadjacent_ok rbs
   | None => True
   end ->
-  forall fs, lint_properties j0 chk (jfile_text all) (option_map file_text rref) = Ok fs ->
-  filter (fun f => negb (is_check f)) fs = expected all rref [] all.
+  forall fs, lint_properties j0 chk (jfile_text all) (option_map jfile_text rref) = Ok fs ->
+  filter (fun f => negb (is_check f)) fs = pexpected all rref.
 Proof. intros Msg chk all rref j0. exact (e2e_properties chk all rref j0). Qed.
 
 (* the text  k=v / zz / # c / k=w / m=1  against the reference text  k=v / m=2 : the premises
    hold, and the model run on the TEXTS (regex engine and all) gives the five findings *)
 Example C19_example_end_to_end :
   Forall legal_jblock e2e_file /\ jadjacent_ok e2e_file /\ Forall block_key_ok e2e_file /\
-  Forall legal_block e2e_ref /\ adjacent_ok e2e_ref /\
-  Forall (fun b => block_key_ok (JB b)) e2e_ref /\
+  Forall legal_jblock e2e_ref /\ jadjacent_ok e2e_ref /\
   jfile_text e2e_file = [107; 61; 118; 10; 122; 122; 10; 35; 32; 99; 10;
                          107; 61; 119; 10; 109; 61; 49; 10]%N /\
-  @lint_properties nat 0 None (jfile_text e2e_file) (Some (file_text e2e_ref)) =
+  @lint_properties nat 0 None (jfile_text e2e_file) (Some (jfile_text e2e_ref)) =
   Ok [mkFinding 1 1 LError (MDuplicate [107%N]);
       mkFinding 2 1 LError (MJunk 4 (2, 1) (3, 1));
       mkFinding 4 1 LError (MDuplicate [107%N]);
       mkFinding 4 1 LWarning (MChanged [107%N]);
       mkFinding 5 1 LWarning (MChanged [109%N])] /\
-  @expected nat e2e_file (Some e2e_ref) [] e2e_file =
+  @pexpected nat e2e_file (Some e2e_ref) =
      [mkFinding 1 1 LError (MDuplicate [107%N]);
       mkFinding 2 1 LError (MJunk 4 (2, 1) (3, 1));
       mkFinding 4 1 LError (MDuplicate [107%N]);
@@ -280,10 +285,62 @@ Example C19_example_end_to_end :
       mkFinding 5 1 LWarning (MChanged [109%N])].
 Proof.
   split; [repeat constructor|]. split; [vm_compute; reflexivity|].
-  split; [repeat constructor; eexists; vm_compute; reflexivity|].
+  split; [repeat constructor|].
   split; [repeat constructor|]. split; [vm_compute; reflexivity|].
-  split; [repeat constructor; eexists; vm_compute; reflexivity|].
   split; [vm_compute; reflexivity|]. split; vm_compute; reflexivity.
+Qed.
+
+(* ---- .ini end to end ---------------------------------------------------------------------
+   As for .properties, on the block lists of Proofs/C02BlocksIniJunk.v: entities  key=value
+   with attached comments, standalone comments, SECTION headers, white-space, garbage regions.
+   Section headers are IniSection entries, not entities: lint never sees them, they only
+   count as text for the positions.  .val is the raw value.  [iexpected] is [expected] of
+   Proofs/LintE2E.v on the blocks seen as items. *)
+Theorem C19_end_to_end_ini :
+  forall (Msg : Type) (chk : option (@checker str Msg)) (all : list ijblock)
+         (rref : option (list ijblock)) (j0 : nat),
+  Forall legal_ijblock all -> ijadjacent_ok all -> Forall iblock_key_ok all ->
+  match rref with
+  | Some rbs => Forall legal_ijblock rbs /\ ijadjacent_ok rbs
+  | None => True
+  end ->
+  (forall e, match chk with Some c => c e e | None => [] end = []) ->
+  lint_ini j0 chk (ijfile_text all) (option_map ijfile_text rref) = Ok (iexpected all rref).
+Proof. intros Msg chk all rref j0. exact (e2e_ini_silent chk all rref j0). Qed.
+
+Theorem C19_end_to_end_ini_checks :
+  forall (Msg : Type) (chk : option (@checker str Msg)) (all : list ijblock)
+         (rref : option (list ijblock)) (j0 : nat),
+  Forall legal_ijblock all -> ijadjacent_ok all -> Forall iblock_key_ok all ->
+  match rref with
+  | Some rbs => Forall legal_ijblock rbs /\ ijadjacent_ok rbs
+  | None => True
+  end ->
+  forall fs, lint_ini j0 chk (ijfile_text all) (option_map ijfile_text rref) = Ok fs ->
+  filter (fun f => negb (is_check f)) fs = iexpected all rref.
+Proof. intros Msg chk all rref j0. exact (e2e_ini chk all rref j0). Qed.
+
+(* [Str] / k=v / zz / ; c / k=w / m=1  against  [Str] / k=v / m=2 *)
+Example C19_example_end_to_end_ini :
+  Forall legal_ijblock ie2e_file /\ ijadjacent_ok ie2e_file /\ Forall iblock_key_ok ie2e_file /\
+  Forall legal_ijblock ie2e_ref /\ ijadjacent_ok ie2e_ref /\
+  @lint_ini nat 0 None (ijfile_text ie2e_file) (Some (ijfile_text ie2e_ref)) =
+  Ok [mkFinding 2 1 LError (MDuplicate [107%N]);
+      mkFinding 3 1 LError (MJunk 10 (3, 1) (4, 1));
+      mkFinding 5 1 LError (MDuplicate [107%N]);
+      mkFinding 5 1 LWarning (MChanged [107%N]);
+      mkFinding 6 1 LWarning (MChanged [109%N])] /\
+  @iexpected nat ie2e_file (Some ie2e_ref) =
+     [mkFinding 2 1 LError (MDuplicate [107%N]);
+      mkFinding 3 1 LError (MJunk 10 (3, 1) (4, 1));
+      mkFinding 5 1 LError (MDuplicate [107%N]);
+      mkFinding 5 1 LWarning (MChanged [107%N]);
+      mkFinding 6 1 LWarning (MChanged [109%N])].
+Proof.
+  split; [repeat constructor|]. split; [vm_compute; reflexivity|].
+  split; [repeat constructor|].
+  split; [repeat constructor|]. split; [vm_compute; reflexivity|].
+  split; vm_compute; reflexivity.
 Qed.
 
 (* ---- non-vacuity: a concrete run, evaluated by the kernel ----------------
